@@ -198,7 +198,19 @@ def check_op(facts, f, bi, si, kind, t):
             return ascii_only and n_acc > 0 and ok_slice, "slice of the buffer whose bytes were matched against ASCII-only classes by the scan loop (%d accept edges)" % n_acc
         if nid == "flussab_btor2::token::ascii_lowercase":
             ok_slice = is_call(arg, "index") and mentions(arg, lambda x: is_call(x, "DeferredReader::buf"))
-            return ok_slice, "slice of the buffer matched by ascii_lowercase_u64 ('a'..='z'; the SWAR kernel's class is value-level and assumed, the cold path's class is checked in C03)"
+            # the 8-byte kernel's class, lane by lane (C13's lane interpreter): exactly 'a'..='z', in particular ASCII
+            from .c13 import kernel_zero_class, LaneCarry, LaneUnsupported
+            kf = [g for i, g in facts.fns.items() if norm(i) == "flussab_btor2::token::ascii_lowercase_u64"]
+            why = "kernel missing"
+            okk = False
+            if kf:
+                try:
+                    cls, _bb = kernel_zero_class(kf[0], lambda x: x[0] == "call" and norm(x[2]).endswith("from_le_bytes"))
+                    okk = cls == frozenset(range(97, 123))
+                    why = "the 8-byte kernel accepts exactly %d byte values%s" % (len(cls), "" if okk else " (not 'a'..='z')")
+                except (LaneCarry, LaneUnsupported) as e:
+                    why = "kernel not decided: %s" % e
+            return ok_slice and okk, "slice of the buffer matched by ascii_lowercase_u64: %s (lane-wise, no carries between lanes); the byte-wise path's class is checked in C03" % why
         if nid in ("flussab_btor2::token::required_hex_constant", "flussab_btor2::token::required_decimal_constant", "flussab_btor2::token::required_binary_constant"):
             ok = is_call(arg, "DeferredReader::advance_with_buf") and is_call(arg[3][1], "str::len") and mentions(arg[3][1], lambda x: x[0] == "call" and norm(x[2]).endswith(("hex_string", "decimal_string", "binary_string")))
             return ok, "the bytes advanced over are exactly the validated str returned by the scanner (advance_with_buf(str.len()))"
@@ -377,5 +389,5 @@ def run(ctx):
     r4 = ctx.rule("C14-R4", "an untrusted Read cannot enlarge the window: slice of exactly chunk_size, valid_len += n only behind n <= chunk_size", floor=3)
     c02_r3(ctx, r4)
     ctx.assume("absence of UB inside std / itoap and aliasing-model questions of the raw pointer API are not decided")
-    ctx.assume("the SWAR kernels accept only the byte classes their cold paths accept (value-level, not decided)")
+    ctx.assume("the multiply-and-shift reduction of the digit kernel is value-level (its byte class and lane independence are decided: C13-R5, and for the keyword kernel here)")
     return "other", "unsafe inventory with guard dominance, trusted-field confinement and panic-safety of trusted fields", {}
